@@ -18,7 +18,7 @@ CHECKS = {
             'images are unconstrained.',
             'DESIGN.md §4 C05'),
     'C06': ('exhaustive enumeration of operator cells (kinds x units x 4 operators) with Hypothesis-drawn '
-            'magnitudes vs an independent dimension table + SI table; inverse-law metamorphic checks; thorough tier '
+            'magnitudes vs an independent dimension table + SI table; inverse-law metamorphic checks; pre-converted, aliased and re-used operand objects; thorough tier '
             'adds a coverage-guided atheris campaign on the random-cell strategy (same oracle)',
             'Every operator cell is evaluated for each generated magnitude tuple, so the finite part of the domain '
             '(which kinds/units/operators) is covered completely and only magnitudes are sampled; exploration.',
@@ -64,7 +64,7 @@ CHECKS = {
             'vp/model.py (efficiencies incl. worm friction formula), vp/oracle/motor.py; tolerances 1e-9 / 64 eps.',
             'DESIGN.md §4 C02'),
     'C03': ('Hypothesis-generated powertrains; per-instant equation of motion with independently reduced inertia and '
-            'step-by-step re-integration of the recorded trace',
+            'step-by-step re-integration of the recorded trace, also across the seam of a run ended early by a stop condition and continued',
             'No counterexample at any recorded instant / pair of consecutive instants; exploration.',
             'Documented inertia reduction in vp/model.py; held instants (all speeds and accelerations exactly 0 in a '
             'self-locking powertrain) are exempt from the acceleration relation and judged by C13.',
@@ -76,7 +76,7 @@ CHECKS = {
             'Closed form and Euler error constants; k from the case.',
             'DESIGN.md §4 C04'),
     'C07': ('metamorphic testing: every input quantity re-expressed in Hypothesis-drawn units with exact rational '
-            'factors; outcome class and SI traces of the two executions compared; constructor arguments in every unit',
+            'factors; outcome class, SI traces and a snapshot of the two executions compared (conditioning test before a difference is reported); constructor arguments in every unit',
             'No counterexample among generated (model, unit assignment) pairs; every unit of every kind is drawn as an '
             'input; exploration.',
             'Near-threshold policy (decisions within 1e-6 of a threshold are only compared for outcome class); soft '
@@ -89,7 +89,7 @@ CHECKS = {
             'vp/oracle/gears.py (tan-form base helix angle; worm gear force with tan(beta) as in worked example 7).',
             'DESIGN.md §4 C09'),
     'C11': ('Hypothesis-generated decimal steps m*10^-e in all time units, fresh and continued runs, vs the exact '
-            'rational grid',
+            'rational grid; a second Powertrain over the simulated chain must start a fresh grid',
             'No counterexample among generated (dt, n, unit, T-form) tuples (~1% of the 8e6-point finite domain per '
             'thorough run; not exhaustive); exploration.',
             'T is a multiple of dt; inertia chosen from dt so trajectories stay finite.',
@@ -118,7 +118,7 @@ CHECKS = {
             'vp/oracle/rules.py; overall efficiency = product of all mating efficiencies (as documented).',
             'DESIGN.md §4 C15'),
     'C16': ('differential testing: stopped run vs un-stopped run of the same Hypothesis-generated case, threshold '
-            'derived from a quantile of the un-stopped series; exact-tie cases',
+            'derived from a quantile of the un-stopped series; exact-tie and one-ulp-off-tie cases',
             'No counterexample among generated (model, sensor, operator, threshold) tuples; exploration.',
             'Readings within 1e-9 of the threshold are not judged unless the tie is exact.',
             'DESIGN.md §4 C16'),
